@@ -285,3 +285,68 @@ def interpret(s, init=None):
     d.final = cur
     d.ambiguous = amb
     return d
+
+
+def admissible_states(params, init=None):
+    """All terminal states a conforming terminal may reach on a parameter string whose reading the statement does
+    not pin down at '38;x' (x not 2 or 5): either only the introducer is dropped, or the introducer and x.
+    Returns a set of frozen states, or None when the string is ambiguous for another reason (empty / non-decimal
+    parameter, colour component > 255) - those stay excluded."""
+    toks, amb = split_params(params)
+    if amb:
+        return None
+    out = set()
+    bad = [False]
+
+    def walk(i, state):
+        n = len(toks)
+        while i < n:
+            c = toks[i]
+            if c == 0:
+                state = {}
+                i += 1
+            elif c in SET:
+                state = dict(state)
+                state[SET[c]] = (c,)
+                i += 1
+            elif c in CLEAR:
+                state = dict(state)
+                state.pop(CLEAR[c], None)
+                i += 1
+            elif c in EXT:
+                g = EXT[c]
+                if i + 1 >= n:
+                    i += 1
+                elif toks[i + 1] == 5:
+                    if i + 2 >= n:
+                        i = n
+                    else:
+                        v = toks[i + 2]
+                        if not (0 <= v <= 255):
+                            bad[0] = True
+                            return
+                        state = dict(state)
+                        state[g] = (c, 5, v)
+                        i += 3
+                elif toks[i + 1] == 2:
+                    if i + 4 >= n:
+                        i = n
+                    else:
+                        vs = toks[i + 2:i + 5]
+                        if not all(0 <= v <= 255 for v in vs):
+                            bad[0] = True
+                            return
+                        state = dict(state)
+                        state[g] = (c, 2) + tuple(vs)
+                        i += 5
+                else:
+                    walk(i + 1, dict(state))      # reading 1: drop the introducer only
+                    walk(i + 2, dict(state))      # reading 2: drop the introducer and the next parameter
+                    return
+            else:
+                i += 1
+        out.add(freeze(state))
+    walk(0, dict(init) if init else {})
+    if bad[0]:
+        return None
+    return out
